@@ -357,7 +357,61 @@ func rulesC13(c *Ctx) {
 				}
 			}
 			c.Check(okOrd, side.conn+".Close:cancels-keepalive-first", cl, nil, "keepaliveCancel() is called before conn.Close()")
+			// nothing but Close stops the detector: the cancel function is referenced in Close (test and call) and handed to
+			// startKeepalive by address, nowhere else (tied to a context, a timer or a callback it would stop while the session
+			// is still in use — and a dead peer would never be noticed)
+			nRef := 0
+			for _, f := range c.funcsWithLits(pM) {
+				for _, sel := range f.FieldRefs(f.Body, ka, false) {
+					nRef++
+					root := f.Root()
+					okRef := root == cl
+					if u, isAddr := f.ParentOf(sel).(*ast.UnaryExpr); isAddr && u.Op == token.AND {
+						if call, isCall := f.ParentOf(u).(*ast.CallExpr); isCall && f.Callee(call) != nil && f.Callee(call).Origin() == sk.Obj {
+							okRef = true
+						}
+					}
+					c.Check(okRef, side.conn+".keepaliveCancel:only-Close-stops-it:"+root.Name(), f, sel, "keepaliveCancel is used by Close and passed by address to startKeepalive only")
+				}
+			}
+			c.Pin(side.conn+": references of keepaliveCancel", nRef, 3)
 		}
+	})
+
+	c.Rule("R-C13-8", "the detector sees the peer's answer to ping as it is: Ping returns the error of the send itself or wraps it with %w, so that errors.Is(err, ErrMethodNotFound) recognises a peer that does not implement ping (and the detector ends silently instead of closing a healthy session)", func() {
+		n := 0
+		for _, typ := range []string{"ServerSession", "ClientSession"} {
+			pg := c.Fn(pM, typ, "Ping")
+			var errs []types.Object
+			for _, w := range Writes(pg.Body, false) {
+				if id, ok := w.LHS.(*ast.Ident); ok && id.Name != "_" && pg.TypeOf(id) != nil && pg.TypeOf(id).String() == "error" {
+					if _, isCall := ast.Unparen(w.RHS).(*ast.CallExpr); isCall || w.RHS == nil {
+						errs = append(errs, pg.ObjOf(id))
+					}
+				}
+			}
+			for i, r := range pg.Returns() {
+				if len(r.Results) != 1 || isNilIdent(r.Results[0]) {
+					continue
+				}
+				n++
+				e := ast.Unparen(r.Results[0])
+				ok := false
+				for _, ev := range errs {
+					if pg.ObjOf(e) == ev || pg.WrapsObj(e, ev) {
+						ok = true
+					}
+				}
+				if ce, isC := e.(*ast.CallExpr); isC && !ok {
+					// return handleSend(...) style: the error of the send is returned directly
+					if fn := pg.Callee(ce); fn != nil && fn.Pkg() != nil && fn.Pkg().Path() != "fmt" && fn.Pkg().Path() != "errors" {
+						ok = true
+					}
+				}
+				c.Check(ok, typ+".Ping:error-returned-as-is#"+itoa(i), pg, r, "Ping hands back the send's error itself or a %%w wrapping of it")
+			}
+		}
+		c.Pin("error returns of the two Ping methods", n, 2)
 	})
 
 	c.Import("R-C13-7", "keep-alive ends silently when the peer reports ping as unsupported, also when the report arrives as an HTTP error status with a JSON-RPC body: the streamable client wraps the peer's error with %w, so errors.Is(err, ErrMethodNotFound) still sees -32601", "C19", "R-C19-9", func(k string) bool {
